@@ -14,7 +14,7 @@ use neurons::tensor::Tensor;
 pub fn meta(ctx: &Ctx) -> Meta {
     let d = depth(ctx);
     Meta {
-        rule: format!("block layer lists {{[dense],[dense,dense],[conv],[conv,conv],[deconv],[conv,deconv]}} x bias on/off x loops 1..3 x coupling {{add,subtract,multiply,mean}} x optimizers {{SGD,SGDM,Adam,AdamW,RMSprop}} x block first / between other layers; actions {{learn(A, batch 1), learn(B, 3 samples, batch 2), learn(A+B, batch 5, 2 epochs)}}; ALL action sequences of length <= {}. Invariant in every state (initial state included): all unrolled copies of each block layer hold bit-identical weights, biases and kernels (NaN = NaN), and the `parameters:` line of Display counts each shared parameter once. States = histories; transitions = learn() calls; non-trivial = states in which the block's weights differ from their initial values", d),
+        rule: format!("block layer lists {{[dense],[dense,dense],[conv],[conv,conv],[deconv],[conv,deconv]}} x bias on/off x loops 1..3 x coupling {{add,subtract,multiply,mean}} x optimizers {{SGD, SGD with learning rate 1e-6, SGDM, Adam, AdamW, RMSprop}} x block first / between other layers; actions {{learn(A, batch 1), learn(B, 3 samples, batch 2), learn(A+B, batch 5, 2 epochs)}}; ALL action sequences of length <= {}. Invariant in every state (initial state included): all unrolled copies of each block layer hold bit-identical weights, biases and kernels (NaN = NaN), and the `parameters:` line of Display counts each shared parameter once. States = histories; transitions = learn() calls; non-trivial = states in which the block's weights differ from their initial values", d),
         bound: format!("history depth {}; complete over the configuration product", d),
         exhaustive: true,
         assumptions: vec!["overwrite coupling is explicitly unimplemented in the library and outside the statement".into()],
@@ -32,6 +32,8 @@ fn depth(ctx: &Ctx) -> usize {
 fn optimizers() -> Vec<OptSpec> {
     vec![
         OptSpec::Sgd { lr: 0.01, decay: None },
+        // steps far below 1e-5 (the tolerance of the library's own approximate tensor equality)
+        OptSpec::Sgd { lr: 1.0e-6, decay: None },
         OptSpec::Sgdm { lr: 0.01, momentum: 0.9, dampening: 0.0, decay: Some(0.01) },
         OptSpec::Adam { lr: 0.001, b1: 0.9, b2: 0.999, eps: 1e-8, decay: None },
         OptSpec::AdamW { lr: 0.001, b1: 0.9, b2: 0.999, eps: 1e-8, decay: 0.01 },
